@@ -32,17 +32,27 @@ _DET_POOL = {
     "state": ["CA", "NY"],
     "k": [0, 1],
     "s": [0.5, 1.5],
+    # detail keys named like top-level Metadata attributes (the attributes themselves are set
+    # independently: a split on "country" must read details["country"], not metadata.country)
+    "country": ["US", "FR"],
+    "currency": ["USD", "JPY"],
 }
 
 
 def metas_with_details(rng, n):
     """n distinct Metadata sharing the top-level attributes except (sometimes) one, with up to four
     detail keys whose values collide across slices (so that split groups are non-trivial); a key may
-    be absent or hold None (both give the same split key)."""
+    be absent or hold None (both give the same split key). loss_details reuses the SAME key names
+    with independently drawn values (equal, different, or present where details lacks the key), and
+    detail keys may be named like top-level attributes — split / slices / t[.., .., metadata] must
+    keep details, loss_details and attributes apart."""
     base = gen.base_meta_kwargs(rng, typed={})
     base["details"] = {}
     base["loss_details"] = {}
     keys = rng.sample(sorted(_DET_POOL), rng.randrange(0, 5))
+    loss_keys = [k for k in keys if rng.random() < 0.5]
+    if rng.random() < 0.4:
+        loss_keys.append(rng.choice([k for k in sorted(_DET_POOL) if k not in loss_keys]))
     # a key holds either values of one kind or only None (mixed kinds under one key make
     # Metadata.__lt__ raise TypeError: a documented domain restriction)
     none_only = {k: rng.random() < 0.15 for k in keys}
@@ -56,10 +66,17 @@ def metas_with_details(rng, n):
             if rng.random() < 0.78:
                 det[k] = None if none_only[k] else rng.choice(_DET_POOL[k])
         kw["details"] = det
+        ldet = {}
+        for k in loss_keys:
+            if rng.random() < 0.7:
+                ldet[k] = rng.choice(_DET_POOL[k])
+        if rng.random() < 0.2:
+            ldet["peril"] = rng.choice(["wind", "fire"])
+        kw["loss_details"] = ldet
         if rng.random() < 0.3:
             kw["country"] = rng.choice([None, "US", "DE"])
         if rng.random() < 0.2:
-            kw["loss_details"] = {"peril": rng.choice(["wind", "fire"])}
+            kw["currency"] = rng.choice([None, "USD", "EUR"])
         if rng.random() < 0.15:
             kw["per_occurrence_limit"] = rng.choice([None, 1000, 2.5])
         m = Metadata(**kw)
@@ -426,8 +443,24 @@ def correspondence(ctx):
             ctx.fail("slices: the result is not a dict Metadata -> Triangle", {"cells": wcells, "op": {"op": "slices"}}, repr(e))
 
         # --- split: every subset of the detail keys present (<= 4) + an absent key
-        dkeys = sorted({k for c in t.cells for k in c.metadata.details})
-        key_lists = list(subsets(dkeys)) if len(dkeys) <= 4 else [rng.sample(dkeys, 2)]
+        # keys to split on: the detail keys present, keys that occur only in loss_details, and names
+        # of top-level attributes (split must look at `details` only)
+        det_keys = {k for c in t.cells for k in c.metadata.details}
+        loss_only = {k for c in t.cells for k in c.metadata.loss_details} - det_keys
+        cand = set(det_keys) | loss_only
+        if rng.random() < 0.5:
+            cand.add(rng.choice(["country", "currency", "risk_basis"]))
+        dkeys = sorted(cand)
+        if len(dkeys) > 4:
+            must = sorted(loss_only)[:1]
+            dkeys = sorted(set(must + rng.sample([k for k in dkeys if k not in must], 4 - len(must))))
+        ctx.count(f"split/keys={len(dkeys)}")
+        if loss_only:
+            ctx.count("split/has-loss-only-key")
+        if any(k in c.metadata.loss_details and c.metadata.loss_details[k] != c.metadata.details[k]
+               for c in t.cells for k in c.metadata.details):
+            ctx.count("split/detail-and-loss-detail-differ")
+        key_lists = list(subsets(dkeys))
         if dkeys:
             key_lists.append(list(reversed(dkeys)) + ["zz_absent"])
         if not ctx.thorough and len(key_lists) > 6:
